@@ -667,6 +667,13 @@ def l18(ctx, rid):
         ctx.ok(rid, 'worker-waits-for-locks', '', 'no try-lock in %d worker functions' % n, nontrivial=False, queries=n)
 
 
+def l19(ctx, rid):
+    """C10.B21 instance: push counts slots; a skipped re-root makes the next push panic inside the worker (replace / close of the
+    active blob), and maintenance stops for the session"""
+    import props.c10 as c10
+    c10.b21(ctx, rid)
+
+
 RULES = [
     Rule('C13.L1', 'the worker loop is only left through the Stop arm (recv() == None) and contains no reachable panic written in the worker module', l1, 4),
     Rule('C13.L3', 'one channel, Sender never cloned, stored only in the Running state, dropped before the worker handle is awaited', l3, 4),
@@ -683,6 +690,7 @@ RULES = [
     Rule('C13.L16', 'a failed index load ends in clear() + successful regeneration before the blob is handed on (C03.I4 instances)', l16, 2),
     Rule('C13.L17', 'every successful initialisation has launched the maintenance worker', l17, 1),
     Rule('C13.L18', 'the maintenance worker waits for the locks it needs (no try-lock that drops a request under load)', l18, 1),
+    Rule('C13.L19', 'push of the closed-blob tree counts slots, never occupied children (C10.B21 instance)', l19, 1),
     Rule('C13.L15', 'the blob id counter is never given back: a creation failure bound to one file name cannot repeat for ever (C07.H6 instances)', l15, 3),
     Rule('C13.L8', 'request-pending / in-progress flags are released on every path of their handler (C12.S8 instances)', l8, 1),
 ]
